@@ -134,7 +134,7 @@ PROPS = {
     },
     'C10': {
         'families': [FOREST, FORESTEXH, PHEAP],
-        'kinds': ['pos', 'hash', 'count', 'cachedcount', 'pdump', 'pollardhash', 'ph:*'],
+        'kinds': ['pos', 'posbatch', 'hash', 'count', 'cachedcount', 'pdump', 'pollardhash', 'ph:*'],
         'lean_modules': ['UtreexoVerif.Props.C10', PHEAP_MODULE, 'UtreexoVerif.Props.C09c', 'UtreexoVerif.Props.NZ'],
         'theorems': ['UtreexoVerif.Props.NZ.nzB8', 'UtreexoVerif.Props.NZ.not_CR', 'UtreexoVerif.Props.NZ.nz_hashBytesOK_compatible', 'UtreexoVerif.Props.C10.getLeafPosition_calculatePosition_nd', 'UtreexoVerif.Proofs.PollardCalcPos.roots_distinct_nd', 'UtreexoVerif.Spec.nodes_leaf_hash_unique', 'UtreexoVerif.Spec.nodesDistinct_of_CR'] + ['UtreexoVerif.Props.C10.' + t for t in ['posOf_eq_some_iff', 'posOf_eq_none_iff', 'posOf_nodeAt', 'posOf_live_unique',
                      'posOf_internal_node', 'liveLeaves_run', 'posOf_deleted', 'posOf_never_added', 'posOf_live', 'posOf_run_isSome_iff',
@@ -177,7 +177,7 @@ PROPS = {
     },
     'C06': {
         'families': [UNDO, FORESTEXH, PHEAP],
-        'kinds': ['roots', 'pos', 'hash', 'prove', 'count', 'cachedcount', 'pdump', 'modifyfail', 'undofail', 'ph:*'],
+        'kinds': ['roots', 'pos', 'posbatch', 'hash', 'prove', 'count', 'cachedcount', 'pdump', 'modifyfail', 'undofail', 'ph:*'],
         'lean_modules': ['UtreexoVerif.Props.C06', PHEAP_MODULE, 'UtreexoVerif.Props.C09c'],
         'theorems': ['UtreexoVerif.Props.C06.' + t for t in ['isUndo_of_modify', 'addsAlive_modify', 'undo_unique', 'undo_unique_slots',
                      'prevRoots_redundant', 'undo_spec', 'undo_congr', 'undo_modify', 'undo_modify_observables', 'undoMany_run',
@@ -309,7 +309,7 @@ PROPS = {
     'C13': {
         'families': [{'name': 'serial', 'shards': {'quick': 8, 'thorough': 16}, 'seeds': {'quick': 1, 'thorough': 3}},
                      {'name': 'serialexh', 'shards': {'quick': 8, 'thorough': 16}}],
-        'kinds': ['ser:*', 'roots', 'pos', 'hash', 'prove', 'count', 'cachedcount', 'modifyfail', 'undofail', 'ph:ser:*'],
+        'kinds': ['ser:*', 'roots', 'pos', 'posbatch', 'hash', 'prove', 'count', 'cachedcount', 'modifyfail', 'undofail', 'ph:ser:*'],
         'lean_modules': ['UtreexoVerif.Props.C13', 'UtreexoVerif.Props.C13b', 'UtreexoVerif.Props.C13Heap', 'UtreexoVerif.Props.C13Map', 'UtreexoVerif.Props.C13MapNote'],
         'theorems': ['UtreexoVerif.Props.C13Map.' + t for t in ['map_restored_bisim', 'map_restored_bisim_bytes32', 'map_restored_behaves_identically', 'map_restored_behaves_identically_full', 'inv_write_read', 'finv_write_read', 'sinv_write_read', 'C09_reach_ser', 'C09_reach_full_ser', 'lookups_reach_ser', 'lookups_reach_full_ser', 'twin_queries', 'twin_step', 'lockstep', 'twinF_queries', 'lockstepF', 'read_ok_sane', 'cr_hashBytesOK_incompatible']] + ['UtreexoVerif.Proofs.SerialMapInv.' + t for t in ['read_write', 'restore_equiv', 'Inv_congr', 'FInv_congr', 'SInv_congr', 'read_into_used']] + ['UtreexoVerif.Proofs.MapSim.' + t for t in ['sim_call', 'trace_equiv', 'observe_equiv']] + ['UtreexoVerif.Props.C13Map.restored_bisim'] + ['UtreexoVerif.Props.C13Heap.' + t for t in ['writeToH_refines', 'writeToH_sink_ok', 'writeToH_sink_fail', 'encodePollard_equiv', 'restoreH_count', 'restoreH_total', 'restoreH_parse_fail', 'restoreH_refines', 'noMiniCollision_encode', 'restoreH_roundtrip', 'restoreH_roundtrip_shape', 'restoreH_prefix', 'restore_write_behaves_identically', 'delsOK_modify', 'restored_modify_agrees', 'restored_queries_agree', 'writeToH_same', 'restorePollard_leafRecs', 'Example.restoreH_agrees_statement_false']] + ['UtreexoVerif.Props.C13.' + t for t in ['C13', 'C13_bytes32', 'okBytes32', 'readFull_chunking', 'pollard_roundtrip', 'pollard_size',
                      'pollard_prefix', 'pollard_sink_ok', 'pollard_sink_fail', 'pollard_chunking', 'pollard_total',
